@@ -192,12 +192,28 @@ Proof. cbv zeta. eexists. split; vm_compute; reflexivity. Qed.
    ==================================================================================================== *)
 From PB Require Import DpRun DpOracle DpOracleSound.
 
+(* After phase 1 the user call reset_address was added to the model (input InResetAddr) and the driver runs the
+   wrappers DpOracle.c04_monitor_ra, which follow the current station address of every peripheral.  On transcripts
+   without a reset_address step (`has_reset l = false`) the wrapper IS the monitor: *)
+Theorem C04_oracle_ra_agrees : forall c obs0 l, has_reset l = false -> c04_monitor_ra c obs0 l = c04_monitor c obs0 l.
+Proof. exact c04_ra_agrees. Qed.
+Print Assumptions C04_oracle_ra_agrees.
+
+(* Soundness of what the driver runs, for histories without reset_address (`no_reset ins`: no InResetAddr input). *)
 Theorem C04_oracle_sound : forall c, conf_ok c -> forall s0 ins s' tr,
-  init_sys c = Ok s0 -> model_run s0 ins = Ok (s', tr) ->
+  init_sys c = Ok s0 -> no_reset ins = true -> model_run s0 ins = Ok (s', tr) ->
+  contract_ok c tr = true -> driver_ok (sy_handles s0) tr = true ->
+  c04_monitor_ra c (observe s0) tr = None.
+Proof. exact c04_oracle_sound_ra0. Qed.
+Print Assumptions C04_oracle_sound.
+
+(* the same for the plain monitor *)
+Theorem C04_oracle_sound_plain : forall c, conf_ok c -> forall s0 ins s' tr,
+  init_sys c = Ok s0 -> no_reset ins = true -> model_run s0 ins = Ok (s', tr) ->
   contract_ok c tr = true -> driver_ok (sy_handles s0) tr = true ->
   c04_monitor c (observe s0) tr = None.
 Proof. exact c04_oracle_sound. Qed.
-Print Assumptions C04_oracle_sound.
+Print Assumptions C04_oracle_sound_plain.
 
 (* non-vacuity: a computed 22-step history of a master with two peripherals (one added by add() during the
    history), max_retry_limit = 1, meets all hypotheses; it contains a global control broadcast, an accepted
@@ -207,7 +223,7 @@ Print Assumptions C04_oracle_sound.
 Example C04_oracle_sound_hypotheses :
   conf_ok ex_conf /\
   exists s0 s' tr, init_sys ex_conf = Ok s0 /\ model_run s0 ex_ins = Ok (s', tr) /\
-    contract_ok ex_conf tr = true /\ driver_ok (sy_handles s0) tr = true /\ length tr = 22%nat /\
+    no_reset ex_ins = true /\ contract_ok ex_conf tr = true /\ driver_ok (sy_handles s0) tr = true /\ length tr = 22%nat /\
     map step_event tr = [None; None; None; Some (7, EvOnline); None; None; None; None; None; None; None; None; None;
                          Some (7, EvOffline); None; None; None; None; None; None; None; None] /\
     map step_cc tr = [false; false; false; true; false; false; false; false; false; false; false; false; false; false;
